@@ -16,7 +16,13 @@ echo "== demo WITHOUT patch (must pass)"; (eval "$DEMO_CMD") > _seed/without.log
 git apply _seed/patch.diff
 echo "== confirmed: with=$W (want !=0) without=$WO (want 0)"
 echo "== our check against the patched tree"
-cd /verif && VERIF_REPO=$WT ./check $PID > /tmp/mut-$ID-check.log 2>&1; C=$?; tail -6 /tmp/mut-$ID-check.log
+# the agent's worktree may predate later fix:/hook commits of /repo: evaluate the patch on a fresh worktree of the current HEAD
+EV=/tmp/ev-$ID; git -C /repo worktree remove --force $EV 2>/dev/null; rm -rf $EV
+git -C /repo worktree add -f $EV HEAD >/dev/null 2>&1
+(cd $EV && (git apply $WT/_seed/patch.diff || git apply --3way $WT/_seed/patch.diff)) || { echo "patch does not apply on current HEAD"; }
+(cd $EV && go build ./... 2>&1 | tail -3)
+cd /verif && VERIF_REPO=$EV ./check $PID > /tmp/mut-$ID-check.log 2>&1; C=$?; tail -6 /tmp/mut-$ID-check.log
+git -C /repo worktree remove --force $EV 2>/dev/null; rm -rf $EV
 echo "== check exit=$C"
 mkdir -p /verif/seeded/$ID && cp -r $WT/_seed/patch.diff $WT/_seed/demo $WT/_seed/meta.json /verif/seeded/$ID/ 2>/dev/null
 python3 - <<PY
